@@ -166,7 +166,9 @@ def r3_grow(ctx):
     wb = [c for c in gz.calls() if (c.callee or "").endswith("write_bytes")]
     if wb:
         tgt, ln = sh(ne(gz.deep(wb[0].args[0]))), sh(ne(gz.deep(wb[0].args[2])))
-        if "size(old_layout)" in tgt.replace(" ", "") and "Sub(size(new_layout),size(old_layout))" in ln.replace(" ", ""):
+        if "grow(" not in tgt:
+            ctx.bad("grow_zeroed|zeroes-old-block", gz.where(wb[0].block), "grow_zeroed zero-fills through `%s`, not through the block grow() returned: when the block had to move, the zeros land behind the old location (on a live neighbour) and the new tail stays dirty" % tgt[:60])
+        elif "size(old_layout)" in tgt.replace(" ", "") and "Sub(size(new_layout),size(old_layout))" in ln.replace(" ", ""):
             ctx.ok("grow_zeroed|range", gz.where(wb[0].block), "zeroes [old_size, new_size)")
         else:
             ctx.bad("grow_zeroed|range", gz.where(wb[0].block), "grow_zeroed zeroes (%s, %s): the preserved prefix is overwritten or the new tail is not cleared" % (tgt[:50], ln[:50]))
